@@ -6,6 +6,7 @@ ID = "C28"
 THEOREMS = [
     "C28_write_tree", "C28_write_tree_git_partial",
     "C28_write_tree_flat_partial", "C28_write_tree_flat_git_partial", "C28_ita_refuted",
+    "C28_commit_symlink_refuted", "C28_commit_files",
     "C28_rm_file_eq", "C28_rm_dir_missing_refuted", "C28_rm_untracked_dir_refuted",
     "C28_mv_eq_partial", "C28_mv_stat_refuted", "C28_mv_mkdir_refuted",
     "C28_clean_d_eq_partial", "C28_clean_subdir_refuted",
@@ -93,6 +94,8 @@ def deviation(c):
     p = c.get("path")
     isdir = lambda q: q not in wt and any(under(q, w) for w in wt)
     if op == "commit":
+        if any(m == "l" and q.rsplit("/", 1)[-1] in (".gitignore", ".gitattributes", ".mailmap", ".gitmodules") for q, (m, _, _) in idx.items()):
+            return "commit-dotfile-symlink"
         return "commit-ita" if any(f == "ita" for (_, _, f) in idx.values()) else None
     if op in ("add", "addall", "mv") and not st["filemode"]:
         for q, (m, cont, t) in wt.items():
@@ -234,6 +237,8 @@ class Main(Suite):
             if bool(ex.get("err")) != bool(ex.get("giterr")):
                 self.status_only = getattr(self, "status_only", 0) + 1
             if c["op"] == "commit":
+                if ex.get("err") and not ex.get("giterr"):
+                    why.append("Commit fails (%s) where git write-tree succeeds" % ex["err"][:120])
                 if not ex.get("err") and ex.get("tree_id") != ex.get("git_tree_id"):
                     why.append("commit tree %s differs from git write-tree %s" % (ex.get("tree_id"), ex.get("git_tree_id")))
                 if not ex.get("err") and not ex.get("head_is_commit"):
